@@ -272,7 +272,7 @@ class TagIndex(Index):
             if len(tag) >= 2 and (
                 len(tag[0]) == 1 or tag[0] in ("expiration", "delegation")
             ):
-                yield self.to_key((tag[0], str(tag[1])))
+                yield self.to_key((tag[0], str(tuples_to_lists(tag[1]))))
 
 
 class AuthorKindIndex(Index):
@@ -1197,6 +1197,16 @@ def get_event_data(txn, event_id: bytes):
         return unpackb(txn.get(b"\x00" + event_id), use_list=False)
     except TypeError:
         return None
+
+
+def tuples_to_lists(value):
+    """
+    msgpack decodes arrays as tuples, so a nested tag value read back from the db
+    must be rendered the same way as when it was written
+    """
+    if isinstance(value, (list, tuple)):
+        return [tuples_to_lists(v) for v in value]
+    return value
 
 
 def bytes_from_hex(hexstr: str) -> bytes:
